@@ -32,6 +32,7 @@ import (
 	"github.com/dolthub/dolt/go/store/types"
 
 	"verif/harness/internal/hx"
+	"verif/harness/internal/replfault"
 	"verif/harness/internal/sqleng"
 )
 
@@ -735,14 +736,14 @@ func (w *world) push(db, br string, force bool, f faultSpec, withModel bool) str
 		mrefs, mchunks = parseDest(w.ask("dest"))
 	}
 
-	plan.set(f.kind, f.at, f.after)
+	replfault.Plan.Set(f.kind, f.at, f.after)
 	args := "'origin','" + br + "'"
 	if force {
 		args = "'--force'," + args
 	}
 	w.must(db, fmt.Sprintf("call dolt_checkout('%s')", br))
 	r := w.exec(db, "call dolt_push("+args+")")
-	calls, fired, _ := plan.clear()
+	calls, fired, _ := replfault.Plan.Clear()
 	cls := classOfErr(r)
 	if r.Err == nil && len(r.Rows) > 0 && strings.Contains(strings.Join(r.Rows[0], " "), "rejected") {
 		cls = "rejected"
@@ -799,7 +800,7 @@ func (w *world) push(db, br string, force bool, f faultSpec, withModel bool) str
 		w.violate("rejected-push-moved-ref", fmt.Sprintf("%s was rejected but remote %s moved %s -> %s", desc, br, before[br], after[br]))
 	}
 	// ---- model comparison
-	if withModel && cls != "panic" && !strings.HasPrefix(cls, "error:") {
+	if withModel {
 		implRefs := map[int]int{}
 		for n, h := range after {
 			implRefs[w.nameOf("refs/heads/"+n)] = w.idOf(h)
@@ -937,9 +938,9 @@ func (w *world) opFetch(db string) {
 		mrefs, mchunks = parseDest(w.ask("dest"))
 	}
 
-	plan.set(f.kind, f.at, false)
+	replfault.Plan.Set(f.kind, f.at, false)
 	r := w.exec(db, "call dolt_fetch('origin')")
-	calls, fired, _ := plan.clear()
+	calls, fired, _ := replfault.Plan.Clear()
 	cls := classOfErr(r)
 	w.logf("%s -> %s calls=%s", desc, cls, strings.Join(calls, ""))
 	w.e.Rep.Hit("op:fetch")
@@ -976,7 +977,7 @@ func (w *world) opFetch(db string) {
 			}
 		}
 	}
-	if cls != "panic" && !strings.HasPrefix(cls, "error:") && len(names) > 0 {
+	if len(names) > 0 {
 		implRefs := map[int]int{}
 		for n, h := range after {
 			implRefs[w.nameOf("refs/remotes/origin/"+n)] = w.idOf(h)
@@ -1023,7 +1024,7 @@ func (w *world) opPull(db string) {
 	oldHead := w.headOf(db, br)
 	desc := fmt.Sprintf("pull %s/%s", db, br)
 	r := w.exec(db, fmt.Sprintf("call dolt_pull('origin','%s')", br))
-	plan.clear()
+	replfault.Plan.Clear()
 	if r.Err != nil && strings.Contains(strings.ToLower(r.Err.Error()), "conflict") {
 		w.exec(db, "call dolt_merge('--abort')")
 	}
@@ -1064,9 +1065,9 @@ func (w *world) opClone() {
 		f = faultSpec{kind: hx.Pick(w.r, []string{"S", "O", "O"}), at: w.r.Intn(2)}
 	}
 	desc := fmt.Sprintf("clone %s %s", name, f)
-	plan.set(f.kind, f.at, false)
+	replfault.Plan.Set(f.kind, f.at, false)
 	r := w.exec("a", fmt.Sprintf("call dolt_clone('faulty://%s','%s')", w.rem, name))
-	plan.clear()
+	replfault.Plan.Clear()
 	cls := classOfErr(r)
 	w.logf("%s -> %s", desc, cls)
 	w.e.Rep.Hit("op:clone")
@@ -1191,7 +1192,11 @@ func (w *world) opConcurrentPush() {
 	}
 	tx, ty := w.headOf(x, br), w.headOf(y, br)
 	desc := fmt.Sprintf("concpush %s,%s/%s", x, y, br)
-	plan.clear()
+	replfault.Plan.Clear()
+	// hold the first pusher's ref-moving Commit until the other pusher's has completed: both have
+	// then passed their ancestor check against the same old head before either compare-and-swap
+	replfault.Plan.DelayFirstCommit()
+	defer replfault.Plan.Disarm()
 	var wg sync.WaitGroup
 	res := make([]*sqleng.Result, 2)
 	for i, db := range []string{x, y} {
@@ -1202,7 +1207,7 @@ func (w *world) opConcurrentPush() {
 		}(i, db)
 	}
 	wg.Wait()
-	plan.clear()
+	replfault.Plan.Clear()
 	cx, cy := classOfErr(res[0]), classOfErr(res[1])
 	for i := range res {
 		if res[i].Err == nil && len(res[i].Rows) > 0 && strings.Contains(strings.Join(res[i].Rows[0], " "), "rejected") {
